@@ -154,6 +154,9 @@ func (c *Canonicalizer) CanonicalizeFunction(fn *ssa.Function) string {
 	for i, block := range sortedBlocks {
 		c.blockMap[block] = fmt.Sprintf("b%d", i)
 	}
+	if c.loopInfo != nil {
+		c.labelLoops(c.loopInfo.Loops)
+	}
 
 	c.writeFunctionSignature(fn)
 	c.reconstructBlockInstructions(sortedBlocks)
@@ -164,6 +167,15 @@ func (c *Canonicalizer) CanonicalizeFunction(fn *ssa.Function) string {
 	}
 
 	return c.output.String()
+}
+
+// labelLoops gives every loop the canonical label of its header block, so that the closed form
+// of an induction variable says which loop it runs with.
+func (c *Canonicalizer) labelLoops(loops []*loop.Loop) {
+	for _, l := range loops {
+		l.Label = c.blockMap[l.Header]
+		c.labelLoops(l.Children)
+	}
 }
 
 func (c *Canonicalizer) AnalyzeLoops(fn *ssa.Function) {
